@@ -633,7 +633,7 @@ func collectEmissions(p *Prog, r *Report, so *ssa.Function) ([]emission, map[str
 // the round-trip undecidable and is reported.
 func recognisedGuards(p *Prog, r *Report, in ssa.Instruction, tok string, serialised map[string]bool) []Fact {
 	var out []Fact
-	for _, f := range FactsAt(in) {
+	for _, f := range FactsAtBlock(in.Block()) { // raw local facts only
 		cond := f.Cond
 		if bo, ok := cond.(*ssa.BinOp); ok && (bo.Op == token.NEQ || bo.Op == token.EQL) {
 			if k, isK := constInt(bo.Y); isK && k == 0 {
